@@ -11,6 +11,8 @@ package message
 //   bytes 16..   the ssid words, big-endian, 4 bytes each (word 0 = contract)
 
 import (
+	"time"
+
 	"github.com/kelindar/binary"
 
 	"github.com/emitter-io/emitter/internal/security/hash"
@@ -483,4 +485,19 @@ func standinFrameSplit3(p0, p1, p2, c0, c1, c2, max int) bool {
 	sizes := [4]int{0, s0, s0 + s1, s0 + s1 + s2}
 	// the head stays strictly under the bound, and it is the LONGEST such prefix (nothing that still fits is held back)
 	return k+len(tail) == 3 && sizes[k] < max && (k == 3 || sizes[k+1] >= max)
+}
+
+// ---------------------------------------------------------------------------------------------------------
+// Message.Expires (properties C07, C06): a stored message expires `TTL` SECONDS after the second its id was
+// created in. The time package is outside the verified code: the calls are recorded, and the contract fixes their
+// arguments - Unix(second of the id, 0) and Add(TTL x one second).
+// @ assume (ID).Time iface
+// @ verify (*Message).Expires pre=pre_Message_Expires post=post_Message_Expires props=C07,C06
+func pre_Message_Expires(m *Message) bool { return m != nil }
+func post_Message_Expires(m *Message, res0 time.Time) bool {
+	t, u, a := vs.TraceFind("ID).Time"), vs.TraceFind("time.Unix"), vs.TraceFind("Time).Add")
+	return t == 0 && u == 1 && a == 2 && vs.TraceLen() == 3 &&
+		vs.TraceArg[int64](u, 0) == vs.TraceRet[int64](t, 0) && vs.TraceArg[int64](u, 1) == 0 &&
+		vs.TraceArg[time.Time](a, 0) == vs.TraceRet[time.Time](u, 0) &&
+		vs.TraceArg[time.Duration](a, 1) == time.Duration(m.TTL)*time.Second && res0 == vs.TraceRet[time.Time](a, 0)
 }
